@@ -338,25 +338,27 @@ func (rr *repRun) diskFn(c simrt.DiskCall) simrt.DiskVerdict {
 }
 
 type repRun struct {
-	t         *testing.T
-	s         *Script
-	res       *Result
-	w         *simrt.World
-	dir       string
-	srv       *replica.Server
-	m         *repModel
-	gate      chan struct{}
-	lag       bool
-	shape     []string
-	step      int
-	router    http.Handler
-	victim    bool   // crashsim victim mode: run the pre-history, then victimOp
-	victimOp  func() // never returns
-	exited    bool   // the replica process called exit
-	punchEver bool   // reclamation has been enabled at some point of this run
-	openPause int32  // copen: number of openers that still pause at the preload fault point
-	diskMu    sync.Mutex
-	diskArm   *diskArm // one-shot data-file fault (ops wf / rf)
+	t          *testing.T
+	s          *Script
+	res        *Result
+	w          *simrt.World
+	dir        string
+	srv        *replica.Server
+	m          *repModel
+	gate       chan struct{}
+	lag        bool
+	shape      []string
+	step       int
+	router     http.Handler
+	victim     bool   // crashsim victim mode: run the pre-history, then victimOp
+	victimOp   func() // never returns
+	exited     bool   // the replica process called exit
+	punchEver  bool   // reclamation has been enabled at some point of this run
+	punchFree  time.Duration
+	punchSlept bool
+	openPause  int32 // copen: number of openers that still pause at the preload fault point
+	diskMu     sync.Mutex
+	diskArm    *diskArm // one-shot data-file fault (ops wf / rf)
 	// bookkeeping for non-triviality
 	mutations, compares int
 }
@@ -448,6 +450,15 @@ func (rr *repRun) run() {
 	w.HookFn = func(g *simrt.G, name string, args ...interface{}) {
 		if name == "AddPunchHoleTimeout" && rr.lag {
 			<-rr.gate
+		}
+		if name == "AddPunchHoleTimeout" && !rr.lag {
+			// see cluster.go: orders the puncher after the drain poller's first look; once per
+			// burst of entries (their number depends on the physical extent layout)
+			if now := w.Now(); now > rr.punchFree || !rr.punchSlept {
+				rr.punchSlept = true
+				rr.punchFree = now + time.Nanosecond
+				simrt.Sleep(time.Nanosecond)
+			}
 		}
 		if name == "AddPreloadTimeout" && atomic.AddInt32(&rr.openPause, -1) >= 0 {
 			simrt.Sleep(time.Second)
